@@ -38,3 +38,4 @@ def run(chk):
                     ('op_after_remove', 100), ('op_after_dup', 20), ('iter_exhaustion_checks', 1000), ('struct_walks', 1000)):
         chk.require(name, m)
     chk.min_cases = 1000
+    chk.coverage(build('cov'), 200)       # thorough tier: gcov line coverage of the anchored sources under this workload
